@@ -149,7 +149,7 @@ func main() {
 			done := false
 			for _, e := range evs {
 				d := w.describe(e)
-				if (e.K == st) || (e.K == "inj" && strings.Contains(d, st)) {
+				if (e.K == st && !(st == "skip" && e.A == 1)) || (st == "skip1" && e.K == "skip" && e.A == 1) || (e.K == "inj" && strings.Contains(d, st)) {
 					w.apply(e)
 					done = true
 					break
@@ -162,6 +162,9 @@ func main() {
 				}
 				break
 			}
+		}
+		if sc.Twin {
+			w.twinCheck(map[string]int{})
 		}
 		for _, l := range w.log {
 			fmt.Println(l)
@@ -217,6 +220,9 @@ func runJob(job *Job) *Result {
 	}
 	if job.Scenario.Twin && job.Scenario.E2 != nil {
 		x.onState = x.twinState
+		// the twin oracles depend on the history (which payloads were handed over early), not only on the state
+		// reached: a re-initialisation that forgets something lands in an already known state
+		x.onEdge = x.twinState
 	}
 	return x.run()
 }
